@@ -187,6 +187,16 @@ def rows():
         for label, obj in [("at-%d" % i, x) for i, x in enumerate(xs)] + [("absent", Atom("other"))]:
             for name in ("memq", "memv"):
                 out.append((name, "length-%d/%s" % (n, label), [obj, lst], (lambda obj=obj, lst=lst: r_mem(obj, lst)), False))
+    # an element that is a list with the same atoms as the object, but another object (equal?, not eqv?): memq / memv pass it by,
+    # wherever in the list it stands
+    for pos in range(3):
+        pa, pb = Atom("pa"), Atom("pb")
+        obj = mklist([pa, pb])
+        others = atoms(2, "o")
+        elems = others[:pos] + [mklist([pa, pb])] + others[pos:]
+        lst = mklist(elems)
+        for name in ("memq", "memv"):
+            out.append((name, "equal-but-not-identical-list/at-%d" % pos, [obj, lst], (lambda obj=obj, lst=lst: r_mem(obj, lst)), False))
     two, two_inexact, three = Atom("2", 2, True), Atom("2.0", 2, False), Atom("3", 3, True)
     out.append(("memv", "exact-2-among-inexact-2", [Atom("2'", 2, True), mklist([three, two_inexact, two])],
                 (lambda a=Atom("2'", 2, True), l=mklist([three, two_inexact, two]): r_mem(a, l)), False))
@@ -214,7 +224,7 @@ SPECIFIED = ("caar cadr cdar cddr caaar caadr cadar caddr cdaar cdadr cddar cddd
              "fold-right list-tail list-ref last-pair memq memv equal?").split()
 
 
-def rule_list_library(ctx, rule):
+def rule_list_library(ctx, rule, only=None):
     from .ctx import where_of
     import os
     where = L.library.BASE
@@ -228,6 +238,8 @@ def rule_list_library(ctx, rule):
     decided = 0
     per = {}
     for name, label, args, ref, uses_proc in rows():
+        if only is not None and name not in only:
+            continue
         if name not in w.genv:
             per.setdefault(name, {"rows": 0, "bad": None, "native_or_missing": True})
             continue
@@ -259,6 +271,8 @@ def rule_list_library(ctx, rule):
             st["bad"] = "%s [%s] gives %s; its definition gives %s" % (
                 call, label, describe(got, got_tr if uses_proc else None), describe(want, tr_ref if uses_proc else None))
     for name in SPECIFIED:
+        if only is not None and name not in only:
+            continue
         st = per.get(name)
         if st is None:
             continue
